@@ -35,6 +35,8 @@ pub mod c15;
 pub mod c16;
 pub mod c18;
 pub mod c20;
+#[cfg(kani)]
+pub mod diag;
 
 #[macro_use]
 pub mod registry;
